@@ -442,6 +442,7 @@ func (m *Muxer) Close() {
 	verifHook("close:unlocked")
 
 	m.cond.Broadcast()
+	verifHook("close:broadcast-done")
 }
 
 // WriteAV1 writes an AV1 temporal unit.
